@@ -267,3 +267,28 @@ example : (servedInbound (run ⟨false, true, false⟩ []
     [.connect 0 false, .init 0 true, .connect 1 false, .init 1 true])).length = 1 := by decide
 
 end VncModel.Props.C14
+
+namespace VncModel.Props.C14
+open VncModel.Policy
+
+/-- the command-line switches configure exactly the three policy fields: after
+`rfbProcessArguments` a field is set iff it was set before or its flag occurs -/
+theorem parseArgs_spec (cfg : Cfg) (args : List String) :
+    (parseArgs cfg args).always = (cfg.always || args.contains "-alwaysshared") ∧
+    (parseArgs cfg args).never = (cfg.never || args.contains "-nevershared") ∧
+    (parseArgs cfg args).dont = (cfg.dont || args.contains "-dontdisconnect") := by
+  induction args generalizing cfg with
+  | nil => simp [parseArgs]
+  | cons a rest ih =>
+    simp only [parseArgs]
+    by_cases h1 : a = "-alwaysshared"
+    · subst h1; have := ih { cfg with always := true }; simp_all [List.contains_cons]
+    · by_cases h2 : a = "-nevershared"
+      · subst h2; have := ih { cfg with never := true }; simp_all [List.contains_cons]
+      · by_cases h3 : a = "-dontdisconnect"
+        · subst h3; have := ih { cfg with dont := true }; simp_all [List.contains_cons]
+        · have := ih cfg
+          simp only [h1, h2, h3, if_false]
+          simp_all [List.contains_cons, eq_comm]
+
+end VncModel.Props.C14
